@@ -1,40 +1,28 @@
 #!/bin/bash
 # Build everything from files on disk only (offline): extractor, Lean project, harness compile cache.
-set -e
+# Only a failure of /verif's own tooling (the extractor does not build) fails setup. Every step that depends on
+# /repo's working tree (regenerated facts, proofs over them, harness compilation) is a warm-up of what each check
+# redoes for itself: when one of them fails here the checks report it (as a VIOLATION naming the broken
+# obligation), so setup warns and carries on instead of keeping the checks from running.
 cd "$(dirname "$0")/.."
 export GOFLAGS=-mod=mod GOPROXY=off
 unset GOSUMDB
 mkdir -p .work evidence replay lean/KM/Gen
-( cd extract && GOTOOLCHAIN=local go build -o ../.work/extract.bin . )
-mkdir -p .work/gen0 && .work/extract.bin -repo "${VERIF_REPO:-/repo}" -out .work/gen0
-for f in .work/gen0/*.lean; do
-  d="lean/KM/Gen/$(basename "$f")"
-  cmp -s "$f" "$d" || cp "$f" "$d"
-done
-cp .work/gen0/facts.json .work/facts.json
-cp .work/gen0/routes_glue_test.go .work/routes_glue_test.go
+( cd extract && GOTOOLCHAIN=local go build -o ../.work/extract.bin . ) || { echo "setup: extractor does not build"; exit 1; }
+mkdir -p .work/gen0
+if .work/extract.bin -repo "${VERIF_REPO:-/repo}" -out .work/gen0; then
+  for f in .work/gen0/*.lean; do
+    d="lean/KM/Gen/$(basename "$f")"
+    cmp -s "$f" "$d" || cp "$f" "$d"
+  done
+  cp .work/gen0/facts.json .work/facts.json
+  cp .work/gen0/routes_glue_test.go .work/routes_glue_test.go
+else
+  echo "setup: WARNING the extractor failed on the working tree; the checks will report it"
+fi
 rm -rf .work/gen0
-( cd lean && lake build )
-# the judge: same Model/Driver, built against the committed facts snapshot (lean-judge/KM/Gen)
-python3 - <<'PY'
-import sys, os
-sys.path.insert(0, os.getcwd())
-from checks import common as c
-ctx = c.Ctx("setup", "quick", 1)
-print("judge:", c.build_judge(ctx), ctx.coverage.get("judge_facts_snapshot"), ctx.notes[-1:] )
-ctx.cleanup()
-PY
-# warm the go build cache for the harness packages
-python3 - <<'PY'
-import sys, os
-sys.path.insert(0, os.getcwd())
-from checks import common as c
-ctx = c.Ctx("setup", "quick", 1)
-for d, pkg in c.harness_packages().items():
-    pre = c.NETNS_PREFIX if c.netns_available() else []
-    rc, out = c.sh(pre + ["go", "test", "-tags", "verif", "-overlay", c.overlay_file(ctx), "-vet=off", "-count=1", "-run", "^$", "./" + pkg + "/"], cwd=c.REPO, env=c.GOENV)
-    print(pkg, "compile rc", rc, out[-300:])
-    if rc != 0: sys.exit(1)
-ctx.cleanup()
-PY
+( cd lean && lake build ) || echo "setup: WARNING lake build failed; the checks will report the broken obligations"
+# the judge: same Model/Driver, built against the committed facts snapshot (lean-judge/KM/Gen);
+# then warm the go build cache for the harness packages
+python3 bin/setup_warm.py || echo "setup: WARNING warm-up step failed; the checks rebuild what they need"
 echo setup ok
